@@ -462,10 +462,11 @@ def _walk(x, u, pth):
     from scinumtools.units import Quantity
     q = Quantity(x, u)
     out = []
-    for v in pth:
+    probe0 = q.value(u)                       # value-in-other-unit queries interleaved with the in-place conversions:
+    for v in pth:                             # the start unit is asked for before the walk and after every step
         q.to(v)
-        out.append((q.value(), q.units(), Quantity(1, v).units()))
-    return out
+        out.append((q.value(), q.units(), Quantity(1, v).units(), q.value(u)))
+    return probe0, out
 
 
 # ------------------------------------------------------------------------------------------- execution
@@ -661,12 +662,22 @@ def check_case(c, _unc=None):
         if o[0] == 'err':
             return failure(sub, [sub, u, list(pth), x], exps, list(o), _tags(tsub, u, pth[-1]) + ['walk'],
                            "raises:" + o[1] + ":" + _short(o[2]))
-        for i, ((got, units, spelled), exp, tol) in enumerate(zip(o[1], exps, tols)):
+        probe0, steps = o[1]
+        ptol = (REL, REL * t_scale(u)) if sub == 'temp-walk' else \
+            (REL, 1e-9 / 10.0 ** SI[l_split(u)[0]] if _is_level(u) else 0.0)
+        if not _close(probe0, float(x), *ptol):
+            return failure(sub, [sub, u, list(pth), x], float(x), probe0, _tags(tsub, u, u) + ['walk', 'probe'],
+                           "probe-in-start-unit:wrong-before-walk")
+        for i, ((got, units, spelled, probe), exp, tol) in enumerate(zip(steps, exps, tols)):
+            if not _close(probe, float(x), *ptol):
+                return failure(sub, [sub, u, list(pth), x], float(x), probe,
+                               _tags(tsub, pth[i], u) + ['walk', 'probe', 'step=%d' % i],
+                               "probe-in-start-unit:wrong-after-step")
             if units != spelled:
                 return failure(sub, [sub, u, list(pth), x], [exp, spelled], [got, units],
                                _tags(tsub, ([u] + list(pth))[i], pth[i]) + ['walk', 'step=%d' % i], "wrong-units-after-step")
             if not _close(got, exp, *tol):
-                return failure(sub, [sub, u, list(pth), x], exps, [g for g, _, _ in o[1]],
+                return failure(sub, [sub, u, list(pth), x], exps, [g[0] for g in steps],
                                _tags(tsub, ([u] + list(pth))[i], pth[i]) + ['walk', 'step=%d' % i],
                                "wrong-value:rel~" + _relclass(got, exp, t_scale(pth[i]) if tsub == 'temp' else 0.0))
         return None
